@@ -248,6 +248,37 @@ def run_case(case, obs):
             sy = sx
         a_x, a_y = rand_arr(nrng, sx, 'float64'), rand_arr(nrng, sx, 'float64')
         b_x, b_y = rand_arr(nrng, sy, case['dt2']), rand_arr(nrng, sy, case['dt2'])
+        if case['rs'] % 4 == 0:
+            # large / tiny magnitudes and narrow integer types on both sides: the distance itself is representable,
+            # its square need not be
+            dt = np.dtype(case['dt'])
+            if dt.kind == 'i':
+                lim = {2: 150, 4: 40000, 8: 3 * 10 ** 9}[dt.itemsize]
+                a_x, a_y = nrng.integers(-lim, lim, sx).astype(dt), nrng.integers(-lim, lim, sx).astype(dt)
+                b_x, b_y = nrng.integers(-lim, lim, sy).astype(dt), nrng.integers(-lim, lim, sy).astype(dt)
+                if sx == ():
+                    a_x, a_y = a_x[()], a_y[()]
+                if sy == ():
+                    b_x, b_y = b_x[()], b_y[()]
+            else:
+                mag = 10.0 ** nrng.choice([-200, -30, 25, 160]) if dt.itemsize == 8 else 10.0 ** nrng.choice([-25, 15])
+                a_x, a_y = (nrng.normal(0, 1, sx) * mag).astype(dt), (nrng.normal(0, 1, sx) * mag).astype(dt)
+                b_x, b_y = (nrng.normal(0, 1, sy) * mag).astype(dt), (nrng.normal(0, 1, sy) * mag).astype(dt)
+            obs.count('separation-extreme')
+            a, b = PixCoord(a_x, a_y), PixCoord(b_x, b_y)
+            sep_raw = np.asarray(a.separation(b))
+            sep = sep_raw.astype(float)
+            dxe = np.asarray(b.x, dtype=np.longdouble) - np.asarray(a.x, dtype=np.longdouble)
+            dye = np.asarray(b.y, dtype=np.longdouble) - np.asarray(a.y, dtype=np.longdouble)
+            m = np.maximum(np.abs(dxe), np.abs(dye))
+            with np.errstate(all='ignore'):
+                expe = np.where(m > 0, m * np.sqrt((dxe / np.where(m > 0, m, 1)) ** 2 + (dye / np.where(m > 0, m, 1)) ** 2), 0)
+            # numpy evaluates hypot of int16 / float32 inputs in float32: allow the rounding of the result's own dtype
+            rel = max(1e-9, 16 * float(np.finfo(sep_raw.dtype).eps)) if sep_raw.dtype.kind == 'f' else 1e-9
+            ok = np.shape(sep) == np.shape(expe) and bool(np.all(np.abs(sep - expe.astype(float)) <= rel * np.abs(expe.astype(float)) + 1e-300))
+            obs.check(ok, 'separation-not-euclidean', f'separation differs from the Euclidean distance for dtype {dt} at extreme magnitudes '
+                      f'(e.g. got {np.ravel(sep)[:2]}, expected {np.ravel(expe.astype(float))[:2]})', 'separation')
+            return
         a, b = PixCoord(a_x, a_y), PixCoord(b_x, b_y)
         sep = a.separation(b)
         dx = np.asarray(b_x, dtype=float) - np.asarray(a_x, dtype=float)
